@@ -108,6 +108,89 @@ func DefaultModels() map[string]Model {
 		r := And(BVCmp("bvule", pp.ln, sp.ln), x.bytesEqual(st, pre, p))
 		return retOne(st, boolV(x.define(st, "hasprefix", r)))
 	}
+	// ---- lib/runtime.Memory (Wasm linear memory), assumed interface contract with ghost state:
+	// size in bytes (at most 4 GiB, only grows), contents as 64-bit words addressed by byte offset
+	// (the allocator only touches 8-byte header words; overlapping unaligned accesses are not modelled).
+	memName := func(meth string) string { return "(lib/runtime.Memory)." + meth }
+	m[memName("Size")] = func(x *Exec, fr *Frame, st *State, args []Value, pos token.Pos) []Outcome {
+		return retOne(st, scalar(types.Typ[types.Uint64], x.memSize(st, args[0])))
+	}
+	m[memName("Grow")] = func(x *Exec, fr *Frame, st *State, args []Value, pos token.Pos) []Outcome {
+		size := x.memSize(st, args[0])
+		pages := ZeroExt(args[1].L[0], 64)
+		nsize := BVBin("bvadd", size, BVBin("bvmul", pages, BVLit64(65536, 64)))
+		ok := x.c.Fresh("grow_ok", SBool)
+		st.assume(Implies(BVCmp("bvugt", nsize, BVLit64(1<<32, 64)), Not(ok)))
+		x.setGhost(st, "memsize:"+args[0].L[1].String(), Ite(ok, nsize, size))
+		old := Extract(31, 0, BVBin("bvudiv", size, BVLit64(65536, 64)))
+		return []Outcome{{St: st, Kind: OutReturn, Rets: []Value{scalar(types.Typ[types.Uint32], old), boolV(ok)}}}
+	}
+	m[memName("ReadUint64Le")] = func(x *Exec, fr *Frame, st *State, args []Value, pos token.Pos) []Outcome {
+		size := x.memSize(st, args[0])
+		off := args[1].L[0]
+		ok := BVCmp("bvule", BVBin("bvadd", ZeroExt(off, 64), BVLit64(8, 64)), size)
+		v := Select(x.memWords(st, args[0]), off)
+		return []Outcome{{St: st, Kind: OutReturn, Rets: []Value{scalar(types.Typ[types.Uint64], x.define(st, "memrd", Ite(ok, v, BVLit64(0, 64)))), boolV(x.define(st, "memrd_ok", ok))}}}
+	}
+	m[memName("WriteUint64Le")] = func(x *Exec, fr *Frame, st *State, args []Value, pos token.Pos) []Outcome {
+		size := x.memSize(st, args[0])
+		off := args[1].L[0]
+		ok := x.define(st, "memwr_ok", BVCmp("bvule", BVBin("bvadd", ZeroExt(off, 64), BVLit64(8, 64)), size))
+		w := x.memWords(st, args[0])
+		x.setGhost(st, "memwords:"+args[0].L[1].String(), Ite(ok, Store(w, off, args[2].L[0]), w))
+		return retOne(st, boolV(ok))
+	}
+	// ---- math/big.Int as an opaque object: constructors allocate, arithmetic methods write only the
+	// receiver and return it (numeric values are not modelled here) ----
+	bigT := func(x *Exec) types.Type {
+		if T := x.lookupType("*math/big.Int"); T != nil {
+			return T
+		}
+		return types.NewPointer(types.Typ[types.Int])
+	}
+	m["math/big.NewInt"] = func(x *Exec, fr *Frame, st *State, args []Value, pos token.Pos) []Outcome {
+		return retOne(st, Value{T: bigT(x), L: []*Term{x.newRef(st, "bigint")}})
+	}
+	for _, meth := range []string{"Add", "Sub", "Mul", "Div", "Mod", "Quo", "Rem", "Set", "SetBytes", "SetUint64", "SetInt64", "Lsh", "Rsh", "Exp", "Neg", "Abs", "And", "Or"} {
+		m["(*math/big.Int)."+meth] = func(x *Exec, fr *Frame, st *State, args []Value, pos token.Pos) []Outcome {
+			x.oblige(fr, st, "nil", x.src(fr.fn, pos, "bigint")+"(recv)", pos, Not(Eq(args[0].L[0], IntLit(0))))
+			x.havocReachable(st, args[0])
+			x.c.note("assumed: math/big.Int arithmetic methods write only their receiver and return it; numeric values not modelled")
+			return retOne(st, args[0])
+		}
+	}
+	// ---- math/bits: exact bit-counting functions as ite chains ----
+	tz := func(w int) Model {
+		return func(x *Exec, fr *Frame, st *State, args []Value, pos token.Pos) []Outcome {
+			v := args[0].L[0]
+			r := BVLit64(int64(w), 64)
+			for k := w - 1; k >= 0; k-- {
+				r = Ite(Not(Eq(Extract(k, k, v), BVLit64(0, 1))), BVLit64(int64(k), 64), r)
+			}
+			return retOne(st, scalar(tInt, x.define(st, "tz", r)))
+		}
+	}
+	blen := func(w int) func(v *Term) *Term {
+		return func(v *Term) *Term {
+			r := BVLit64(0, 64)
+			for k := 0; k < w; k++ {
+				r = Ite(Not(Eq(Extract(k, k, v), BVLit64(0, 1))), BVLit64(int64(k+1), 64), r)
+			}
+			return r
+		}
+	}
+	m["math/bits.TrailingZeros32"], m["math/bits.TrailingZeros64"] = tz(32), tz(64)
+	for _, w := range []int{32, 64} {
+		w := w
+		suffix := fmt.Sprintf("%d", w)
+		m["math/bits.Len"+suffix] = func(x *Exec, fr *Frame, st *State, args []Value, pos token.Pos) []Outcome {
+			return retOne(st, scalar(tInt, x.define(st, "bitlen", blen(w)(args[0].L[0]))))
+		}
+		m["math/bits.LeadingZeros"+suffix] = func(x *Exec, fr *Frame, st *State, args []Value, pos token.Pos) []Outcome {
+			return retOne(st, scalar(tInt, x.define(st, "lz", BVBin("bvsub", BVLit64(int64(w), 64), blen(w)(args[0].L[0])))))
+		}
+	}
+	m["math/bits.Len"] = m["math/bits.Len64"]
 	// slices.Reverse(s): in-place reversal (library contract: new[i] == old[len-1-i])
 	m["slices.Reverse"] = func(x *Exec, fr *Frame, st *State, args []Value, pos token.Pos) []Outcome {
 		s := args[0]
@@ -250,6 +333,52 @@ func itoa(i int) string {
 	return s
 }
 
+// setGhost writes a ghost variable and records the write for loop write-set discovery.
+func (x *Exec) setGhost(st *State, key string, t *Term) {
+	st.ghost[key] = t
+	if st.written != nil {
+		if st.written.ghost == nil {
+			st.written.ghost = map[string]bool{}
+		}
+		st.written.ghost[key] = true
+	}
+}
+
+// ghostInit returns the entry value of a ghost variable (a named symbol), by key prefix.
+func (x *Exec) ghostInit(key string) *Term {
+	switch {
+	case strings.HasPrefix(key, "ncalls:"):
+		return BVLit64(0, 64)
+	case strings.HasPrefix(key, "lock:"):
+		return IntLit(0)
+	case strings.HasPrefix(key, "memsize:"):
+		t := x.c.Named("G0_"+key, SBV(64))
+		if !x.axiomSeen["g0:"+key] {
+			x.axiomSeen["g0:"+key] = true
+			// Wasm linear memory: whole 64 KiB pages, at most 4 GiB
+			x.extraAxioms = append(x.extraAxioms, BVCmp("bvule", t, BVLit64(1<<32, 64)), Eq(BVBin("bvand", t, BVLit64(65535, 64)), BVLit64(0, 64)))
+		}
+		return t
+	case strings.HasPrefix(key, "memwords:"):
+		return x.c.Named("G0_"+key, SArr(SBV(32), SBV(64)))
+	}
+	return nil
+}
+
+func (x *Exec) ghostGet(st *State, key string) *Term {
+	if t, ok := st.ghost[key]; ok {
+		return t
+	}
+	t := x.ghostInit(key)
+	if t != nil {
+		st.ghost[key] = t
+	}
+	return t
+}
+
+func (x *Exec) memSize(st *State, mem Value) *Term  { return x.ghostGet(st, "memsize:"+mem.L[1].String()) }
+func (x *Exec) memWords(st *State, mem Value) *Term { return x.ghostGet(st, "memwords:"+mem.L[1].String()) }
+
 // logCall records the arguments of a call in the ghost call log; a ghost counter per function tells
 // specifications whether (and how often) the function was called.
 func (x *Exec) logCall(st *State, name string, args []Value) {
@@ -290,6 +419,16 @@ func registerSpecBuiltins(x *Exec) {
 			unsup("spec: lastarg: no recorded call to %s on this path", lit.Text)
 		}
 		return as[i]
+	}
+	// memsize(mem), memword(mem, off): ghost state of a runtime.Memory value
+	x.specBuiltins["memsize"] = func(sc *specScope, n *ECall) Value {
+		mv := x.evalSpec0(sc, n.Args[0], nil)
+		return scalar(types.Typ[types.Uint64], x.memSize(sc.st, mv))
+	}
+	x.specBuiltins["memword"] = func(sc *specScope, n *ECall) Value {
+		mv := x.evalSpec0(sc, n.Args[0], nil)
+		off := x.evalSpec0(sc, n.Args[1], types.Typ[types.Uint32])
+		return scalar(types.Typ[types.Uint64], Select(x.memWords(sc.st, mv), off.L[0]))
 	}
 	// lastret("pkg.Func", i): i-th result of the most recent abstracted call to the function
 	x.specBuiltins["lastret"] = func(sc *specScope, n *ECall) Value {
